@@ -222,6 +222,9 @@ pub fn make_ctx(rng: &mut Rng, prof: &Profile, pk8: &[u8], pub_b64: &str, pub2_b
     // signature by another key over the right message, and by the right key over another message
     all_sigs.push(rsa_sign(pk8_other, &sha256_hex(&targets[0])));
     all_sigs.push(rsa_sign(pk8, "some other message"));
+    // a signature by the right key over the hash as a careless server would spell it (upper-case hex): it is not a
+    // signature over the content's hash, though it is one over the string the server advertises
+    for t in &targets { all_sigs.push(rsa_sign(pk8, &sha256_hex(t).to_uppercase())); }
     let all_contents = targets.clone();
     Ctx {
         base, other_base, numbers, targets, patches, wrong_base_patches, key_mode: km, key, sigs,
@@ -273,7 +276,7 @@ fn gen_sig(rng: &mut Rng, ctx: &Ctx, i: usize) -> Option<String> {
 fn gen_hash(rng: &mut Rng, ctx: &Ctx, i: usize) -> String {
     let good = sha256_hex(&ctx.targets[i]);
     match rng.below(40) {
-        0 => good.to_uppercase(),
+        0 | 8 => good.to_uppercase(),
         1 => sha256_hex(b"something else"),
         2 => good[..good.len() - 1].to_string(), // odd length
         3 => format!("{}zz", &good[..good.len() - 2]),
@@ -359,12 +362,16 @@ fn gen_resp_pref(rng: &mut Rng, prof: &Profile, ctx: &Ctx, prefer: Option<usize>
     };
     // the content on offer: normally that of number i; a re-issuing server serves another patch's bytes under it
     let j = if prof.reissue > 0 && rng.chance(prof.reissue) { rng.below(ctx.numbers.len()) } else { i };
-    let offer = Offer {
+    let mut offer = Offer {
         number: ctx.numbers[i],
         hash: gen_hash(rng, ctx, j),
         url: format!("https://cdn.example/patch/{}", ctx.numbers[i]),
         sig: gen_sig(rng, ctx, j),
     };
+    // a server that spells the hash in upper case usually signs what it spells
+    if offer.hash != offer.hash.to_lowercase() && offer.hash.len() == 64 && rng.chance(60) {
+        offer.sig = Some(ctx.all_sigs[ctx.sigs.len() + 4 + j].clone());
+    }
     let available = !rng.chance(4); // patch present but patch_available=false
     (Some(Resp { available, patch: Some(offer), rolled_back }), Some(j))
 }
@@ -488,7 +495,10 @@ pub fn gen_init(rng: &mut Rng, prof: &Profile, ctx: &Ctx, gs: &mut GenState, sec
     let mut yaml = Ok(Yaml {
         app_id: ctx.app_id.clone(),
         channel: ctx.yaml_channel.clone(),
-        base_url: if rng.chance(10) { Some("http://127.0.0.1:9".to_string()) } else { None },
+        // incl. the shapes a hand-edited shorebird.yaml has: trailing slash, nothing after the colon
+        base_url: if rng.chance(12) {
+            Some((*rng.pick(&["http://127.0.0.1:9", "http://127.0.0.1:9/", "", "/", "http://127.0.0.1:9"])).to_string())
+        } else { None },
         auto_update: ctx.auto,
         key: ctx.key.clone(),
     });
@@ -629,7 +639,18 @@ fn gen_conc(rng: &mut Rng, prof: &Profile, ctx: &Ctx, runner: &Runner) -> Op {
         JFile::Ok(p) => p.booting.as_ref().map(|m| m.number),
         _ => None,
     });
-    let prefer = if rng.chance(50) { booting } else { None };
+    let mut prefer = if rng.chance(50) { booting } else { None };
+    // the race every process start has: the update thread is already running when the engine reports the launch of the
+    // patch selected by the previous run (nothing booting yet in this process), and the server has moved on to another patch
+    let pending: Option<usize> = runner.last_obs.as_ref().and_then(|o| match &o.pj {
+        JFile::Ok(p) if p.booting.is_none() => p.next.as_ref().map(|m| m.number),
+        _ => None,
+    });
+    let launch_race = pending.is_some() && rng.chance(50);
+    if launch_race {
+        let others: Vec<usize> = ctx.numbers.iter().cloned().filter(|n| Some(*n) != pending).collect();
+        if !others.is_empty() { prefer = Some(*rng.pick(&others)); }
+    }
     let upd = {
         let (resp, idx) = gen_resp_pref(rng, prof, ctx, prefer);
         let dl = match idx { Some(i) => gen_download(rng, prof, ctx, i), None => None };
@@ -647,6 +668,10 @@ fn gen_conc(rng: &mut Rng, prof: &Profile, ctx: &Ctx, runner: &Runner) -> Op {
             75..=89 => gen_check(rng, prof, ctx),
             _ => Op::Start,
         });
+    }
+    if launch_race {
+        bops[0] = Op::Start;
+        if bops.len() > 1 && rng.chance(60) { bops[1] = if rng.chance(70) { Op::Success } else { Op::Failure }; }
     }
     // schedules: half random bits; half "the other thread runs in one gap of the update": every gap of the
     // update (up to its last section) is then equally likely, which random bits make exponentially rare
